@@ -37,6 +37,7 @@ vars == <<g, gh, last>>
 WeightSet2 == {-1, 2}
 WeightSet3 == {-1, 0, 2}
 WeightSet4 == {-1, 0, 2, 3}
+WeightSet5 == {-1, 1, 2, 4, 5}    \* 1 and 4 are one ulp apart, 5 is huge (inexact-weight family)
 BadAll == {0, 1, MAXU}
 
 -----------------------------------------------------------------------------
@@ -67,7 +68,7 @@ AllCalls ==
                      ELSE {})
                \cup (IF Kind = "labeled"
                      THEN {[op |-> "setEdgeLabel", i |-> p[1], j |-> p[2], l |-> l, f |-> f] :
-                               p \in Pairs, l \in LArgs, f \in (IF OrphanForce THEN BOOLEAN ELSE {FALSE})}
+                               p \in Pairs, l \in LArgs, f \in (IF OrphanForce \/ BadOffsets # {} THEN BOOLEAN ELSE {FALSE})}
                      ELSE {})
           ELSE {})
     \cup (IF Kind = "multi"
@@ -124,9 +125,16 @@ Init == /\ g = Empty(0)
         /\ gh = GEmpty(0)
         /\ last = [c |-> [op |-> "init"], out |-> "ok"]
 
+\* setEdgeLabel(force=true) on a pair that is not an edge leaves an orphan label: documented,
+\* but outside every listed property - enabled only with OrphanForce (the forced flag itself
+\* is still exercised on existing edges and on out-of-range arguments)
+OrphanOK(c) ==
+    (c.op = "setEdgeLabel" /\ c.f /\ InRange(g, c.i) /\ InRange(g, c.j) /\ ~HasEdge(g, c.i, c.j)) => OrphanForce
+
 Next == \E c \in AllCalls :
           /\ c.op \in Ops
           /\ DupOK(c)
+          /\ OrphanOK(c)
           /\ LET r == Step(g, c) IN
                /\ Bounded(r.g)
                /\ g' = r.g
